@@ -2,6 +2,7 @@ import Driver.StoreDrv
 import Driver.MgrDrv
 import Driver.LeakDrv
 import Driver.AtrestDrv
+import Driver.CodecDrv
 
 def main (args : List String) : IO UInt32 := do
   match args with
@@ -9,4 +10,5 @@ def main (args : List String) : IO UInt32 := do
   | ["mgr"] => Driver.MgrDrv.main; return 0
   | ["leak"] => Driver.LeakDrv.main; return 0
   | ["atrest"] => Driver.AtrestDrv.main; return 0
+  | ["codec"] => Driver.CodecDrv.main; return 0
   | _ => IO.eprintln "usage: mdkdrv store < ops"; return 2
